@@ -353,6 +353,15 @@ func (l *Lexer) readBlockString(tok *token.Token) {
 
 	for {
 		next := l.readRune()
+		if quoteCount != 0 && next != runes.QUOTE {
+			// the quotes read so far did not close the string: they are content, like any other
+			// character they end the leading white space and restart the trailing white space
+			if !reachedFirstNonWhitespace {
+				reachedFirstNonWhitespace = true
+				leadingWhitespaceToken = whitespaceCount
+			}
+			whitespaceCount = 0
+		}
 		switch next {
 		case runes.SPACE, runes.TAB, runes.CARRIAGERETURN, runes.LINETERMINATOR:
 			escaped = false
@@ -379,6 +388,10 @@ func (l *Lexer) readBlockString(tok *token.Token) {
 			}
 
 		case runes.BACKSLASH:
+			if !reachedFirstNonWhitespace {
+				reachedFirstNonWhitespace = true
+				leadingWhitespaceToken = whitespaceCount
+			}
 			escaped = !escaped
 			quoteCount = 0
 			whitespaceCount = 0
